@@ -43,12 +43,13 @@ def isHeapKind : Kind → Bool
   | .alloc | .gate => true
   | _ => false
 
-/-- The heap mutex is held at this pc. -/
-def holdsH : PC → Bool
+/-- The heap mutex is held at this pc (`fx`: the variant in which `with_locked_env` keeps it). -/
+def holdsH (fx : Bool) : PC → Bool
   | .exitCheck k | .intCheck k | .parking k | .retract k => isHeapKind k
   | .allocd => true
-  | .stopP .gc _ | .stopS .gc _ | .scanLock .gc _ | .spin .gc _ _ | .acc .gc _ _ | .resLock .gc
-  | .resP .gc _ | .resS .gc _ | .resU .gc _ => true
+  | .envReady => fx
+  | .stopP o _ | .stopS o _ | .scanLock o _ | .spin o _ _ | .acc o _ _ | .resLock o
+  | .resP o _ | .resS o _ | .resU o _ => decide (o = .gc) || fx
   | _ => false
 
 /-- The stopper's own `paused` flag. -/
@@ -85,7 +86,7 @@ def State.spc (s : State) : PC :=
     | none => .run
 
 /-- Everything the per-thread invariant of `u` reads from the rest of the state. -/
-structure Proj where
+@[ext] structure Proj where
   active : Bool
   cov : Bool
   accd : Bool
@@ -93,11 +94,12 @@ structure Proj where
   exp : Option Nat
   hl : Bool
   host : Bool
+  fx : Bool
 
 def proj (s : State) (u : Tid) : Proj :=
   { active := s.stopper.isSome, cov := covered s.spc u, accd := isAcc s.spc u,
     bu := beforeUnpark s.spc u, exp := expEnv s.spc u s.ver, hl := decide (s.hlock = some u),
-    host := s.hostUsed }
+    host := s.hostUsed, fx := s.fix }
 
 /-- Invariant of a thread that is not the stopper. -/
 structure TPcore (pr : Proj) (th : Thread) : Prop where
@@ -108,12 +110,13 @@ structure TPcore (pr : Proj) (th : Thread) : Prop where
   act : pr.active = true → th.reg = true ∧ th.hostMid = false
   cov : pr.cov = true → th.paused = true ∧ th.st ≠ .interrupted ∧ th.pc.leaving = false
   env : th.pc ≠ .done → th.env = pr.exp
-  hl : holdsH th.pc = pr.hl
+  hl : holdsH pr.fx th.pc = pr.hl
   nh : pr.host = false → th.paused = pr.cov ∧ th.st ≠ .interrupted ∧ th.hostMid = false ∧
         (th.pc.waiting = true → th.token = false → pr.bu = true)
+  wf : pr.cov = true → pr.bu = true ∧ pr.active = true
 
 /-- Invariant of the stopper's own record. -/
-structure TPself (ver : Nat) (hl host : Bool) (th : Thread) : Prop where
+structure TPself (ver : Nat) (hl host fx : Bool) (th : Thread) : Prop where
   st : th.pc.isStopper = true
   ctx : th.ctx = false
   scn : th.scanned = 0
@@ -121,12 +124,12 @@ structure TPself (ver : Nat) (hl host : Bool) (th : Thread) : Prop where
   hm : th.hostMid = false
   env : th.env = ownEnv th.pc ver
   held : heldReq th.pc = true → th.held = some ver
-  hl : holdsH th.pc = hl
+  hl : holdsH fx th.pc = hl
   nh : host = false → th.paused = ownPaused th.pc ∧ th.st ≠ .interrupted
 
 structure Inv (s : State) : Prop where
   thr : ∀ (u : Tid) (th : Thread), s.threads[u]? = some th →
-    (s.stopper = some u → TPself s.ver (decide (s.hlock = some u)) s.hostUsed th) ∧
+    (s.stopper = some u → TPself s.ver (decide (s.hlock = some u)) s.hostUsed s.fix th) ∧
     (s.stopper ≠ some u → TPcore (proj s u) th)
   stp : ∀ a, s.stopper = some a → a < s.threads.length
   tl : s.tlock = (if holdsT s.spc then s.stopper else none)
@@ -157,6 +160,7 @@ variable (s : State) (t : Tid) (x : Thread)
 @[simp] theorem put_ver : (s.put t x).ver = s.ver := rfl
 @[simp] theorem put_stopper : (s.put t x).stopper = s.stopper := rfl
 @[simp] theorem put_hostUsed : (s.put t x).hostUsed = s.hostUsed := rfl
+@[simp] theorem put_fix : (s.put t x).fix = s.fix := rfl
 @[simp] theorem put_len : (s.put t x).threads.length = s.threads.length := by simp [State.put]
 end fields
 
@@ -190,7 +194,7 @@ theorem inv_init : Inv init := by
       | succ n => simp [init] at hu
     obtain ⟨rfl, rfl⟩ := this
     refine ⟨by simp [init], fun _ => ?_⟩
-    refine ⟨rfl, rfl, ?_, ?_, ?_, ?_, ?_, ?_, ?_⟩ <;>
+    refine ⟨rfl, rfl, ?_, ?_, ?_, ?_, ?_, ?_, ?_, ?_⟩ <;>
       simp [proj, init, State.spc, isAcc, covered, expEnv, holdsH, beforeUnpark, PC.waiting]
   · intro a h; simp [init] at h
   · simp [init, State.spc, holdsT]
